@@ -142,6 +142,13 @@ func (pnf *PrevNextFinder) FindOutlink(root *html.Node, pageURL *nurl.URL, findN
 			continue
 		}
 
+		// Lower-casing can change the byte length of a string (e.g. "Ⱥ" -> "ⱥ"), so a
+		// case-insensitive prefix match does not guarantee the href is long enough.
+		if len(linkHref) < lenPrefix {
+			pnf.appendDebugStrForLink(link, "ignored: not prefix")
+			continue
+		}
+
 		if findNext && !rxNumber.MatchString(linkHref[lenPrefix:]) {
 			pnf.appendDebugStrForLink(link, "ignored: not prefix + number")
 			continue
